@@ -580,6 +580,8 @@ func c12PositionRecorded(w *World, r *Report) {
 				}
 			}
 			filled := false
+			// the maps themselves (make(map..) sites) the looked-up table can be: through local cells, captured variables, parameters
+			lkMaps := makeMapOrigins(lk.X, 0, map[ssa.Value]bool{})
 			for _, g := range fns {
 				forEachInstr(g, func(_ *ssa.BasicBlock, i2 ssa.Instruction) {
 					mu, ok := i2.(*ssa.MapUpdate)
@@ -590,6 +592,13 @@ func c12PositionRecorded(w *World, r *Report) {
 					if mr := valueRoot(mu.Map); roots[mr] {
 						if _, isMk := mr.(*ssa.MakeMap); isMk {
 							same = true
+						}
+					}
+					if !same && len(lkMaps) > 0 {
+						for mk := range makeMapOrigins(mu.Map, 0, map[ssa.Value]bool{}) {
+							if lkMaps[mk] {
+								same = true
+							}
 						}
 					}
 					if skey != "" && structFieldKey(mu.Map) == skey {
@@ -733,6 +742,9 @@ func wholeInputRule(w *World, r *Report, prop string) {
 			case ssa.CallInstruction:
 				if f := x.Common().StaticCallee(); f != nil {
 					if f.Name() == "SyntaxError" || f.Name() == "AddSyntaxError" || f.String() == "fmt.Errorf" || f.String() == "errors.New" {
+						return true
+					}
+					if recordsSyntaxError(w, f, 0) {
 						return true
 					}
 				}
@@ -933,7 +945,7 @@ func computedFieldsSingle(w *World, r *Report, prop string) {
 				if !ok {
 					return
 				}
-				if tn, fname, _, _ := fieldOf(afa); tn != "Field" || fname != "Attr" || stripIdentity(afa.X) != holder {
+				if tn, fname, _, _ := fieldOf(afa); tn != "Field" || fname != "Attr" || !sameCellValue(afa.X, holder) {
 					return
 				}
 				for _, ref := range *ta.Referrers() {
@@ -975,7 +987,7 @@ func computedFieldsSingle(w *World, r *Report, prop string) {
 				if !ok {
 					continue
 				}
-				if tn, fname, _, _ := fieldOf(f3); tn != "Field" || fname != "IsRepeat" || stripIdentity(f3.X) != holder {
+				if tn, fname, _, _ := fieldOf(f3); tn != "Field" || fname != "IsRepeat" || !sameCellValue(f3.X, holder) {
 					continue
 				}
 				// successor on which IsRepeat is false
@@ -1023,7 +1035,7 @@ func computedFieldsSingle(w *World, r *Report, prop string) {
 					}
 					pidx := -1
 					for i, a := range call.Call.Args {
-						if stripIdentity(a) == holder && i < len(h.Params) {
+						if sameCellValue(a, holder) && i < len(h.Params) {
 							pidx = i
 						}
 					}
@@ -1081,7 +1093,7 @@ func computedFieldsSingle(w *World, r *Report, prop string) {
 								okRet = true
 							}
 						}
-						if !okRet {
+						if !okRet && !valueImpliesNotRepeat(ret.Results[resIdx], h.Params[pidx], 0) {
 							allOK = false
 						}
 					}
@@ -1501,4 +1513,178 @@ func lengthLinkByKind(w *World, r *Report, prop string) {
 	if n == 0 {
 		r.fail(rule, "recording site found", "internal/parser/packet_dsl_parser.go", "no store to Packet.LengthField in the parse phase")
 	}
+}
+
+// recordsSyntaxError: the parser-package function appends to a listener's error list or calls AddSyntaxError on every call -
+// directly or through functions of the same package (a recording helper such as `add(line, column, msg)`).
+func recordsSyntaxError(w *World, f *ssa.Function, depth int) bool {
+	if f == nil || f.Blocks == nil || f.Pkg != w.Parser || depth > 3 {
+		return false
+	}
+	found := false
+	forEachInstr(f, func(b *ssa.BasicBlock, ins ssa.Instruction) {
+		if found || !b.Dominates(b) {
+			return
+		}
+		// only what runs on every call: the block dominates every return
+		for _, rb := range f.Blocks {
+			if _, ok := rb.Instrs[len(rb.Instrs)-1].(*ssa.Return); ok && !b.Dominates(rb) {
+				return
+			}
+		}
+		switch x := ins.(type) {
+		case *ssa.Store:
+			if fa, ok := x.Addr.(*ssa.FieldAddr); ok {
+				if tn, fn, _, _ := fieldOf(fa); tn == "SyntaxErrorListener" && fn == "Errors" {
+					found = true
+				}
+			}
+		case ssa.CallInstruction:
+			if g := x.Common().StaticCallee(); g != nil {
+				if g.Name() == "AddSyntaxError" || recordsSyntaxError(w, g, depth+1) {
+					found = true
+				}
+			}
+		}
+	})
+	return found
+}
+
+// makeMapOrigins: the make(map...) instructions a map-typed value can come from - through local cells, variables captured by a
+// closure (resolved at the MakeClosure in the parent function), phis and parameters (over the static call sites in the repo).
+func makeMapOrigins(v ssa.Value, depth int, seen map[ssa.Value]bool) map[*ssa.MakeMap]bool {
+	out := map[*ssa.MakeMap]bool{}
+	if v == nil || depth > 8 || seen[v] {
+		return out
+	}
+	seen[v] = true
+	add := func(m map[*ssa.MakeMap]bool) {
+		for k := range m {
+			out[k] = true
+		}
+	}
+	cellStores := func(al *ssa.Alloc) {
+		if al.Referrers() == nil {
+			return
+		}
+		for _, ref := range *al.Referrers() {
+			if st, ok := ref.(*ssa.Store); ok && st.Addr == ssa.Value(al) {
+				add(makeMapOrigins(st.Val, depth+1, seen))
+			}
+		}
+	}
+	switch x := stripIdentity(v).(type) {
+	case *ssa.MakeMap:
+		out[x] = true
+	case *ssa.Phi:
+		for _, e := range x.Edges {
+			add(makeMapOrigins(e, depth+1, seen))
+		}
+	case *ssa.UnOp:
+		if x.Op != token.MUL {
+			return out
+		}
+		switch c := x.X.(type) {
+		case *ssa.Alloc:
+			cellStores(c)
+		case *ssa.FreeVar:
+			g := c.Parent()
+			if g == nil || g.Parent() == nil {
+				return out
+			}
+			for j, fv := range g.FreeVars {
+				if fv != c {
+					continue
+				}
+				forEachInstr(g.Parent(), func(_ *ssa.BasicBlock, ins ssa.Instruction) {
+					if mc, ok := ins.(*ssa.MakeClosure); ok && mc.Fn == ssa.Value(g) && j < len(mc.Bindings) {
+						if al, ok := mc.Bindings[j].(*ssa.Alloc); ok {
+							cellStores(al)
+						} else {
+							add(makeMapOrigins(mc.Bindings[j], depth+1, seen))
+						}
+					}
+				})
+			}
+		}
+	case *ssa.FreeVar:
+		// captured by value
+		g := x.Parent()
+		if g == nil || g.Parent() == nil {
+			return out
+		}
+		for j, fv := range g.FreeVars {
+			if fv != x {
+				continue
+			}
+			forEachInstr(g.Parent(), func(_ *ssa.BasicBlock, ins ssa.Instruction) {
+				if mc, ok := ins.(*ssa.MakeClosure); ok && mc.Fn == ssa.Value(g) && j < len(mc.Bindings) {
+					add(makeMapOrigins(mc.Bindings[j], depth+1, seen))
+				}
+			})
+		}
+	case *ssa.Parameter:
+		fn := x.Parent()
+		if theWorld == nil {
+			return out
+		}
+		for i, p := range fn.Params {
+			if p != x {
+				continue
+			}
+			for _, g := range theWorld.allFuncsInRepo() {
+				forEachInstr(g, func(_ *ssa.BasicBlock, ins ssa.Instruction) {
+					if c, ok := ins.(ssa.CallInstruction); ok && c.Common().StaticCallee() == fn && i < len(c.Common().Args) {
+						add(makeMapOrigins(c.Common().Args[i], depth+1, seen))
+					}
+				})
+			}
+		}
+	}
+	return out
+}
+
+// valueImpliesNotRepeat: the bool value v can be true only if param.IsRepeat is false: the constant false, `!param.IsRepeat`, or a
+// phi (the form `a && !param.IsRepeat` takes) of such values.
+func valueImpliesNotRepeat(v ssa.Value, param ssa.Value, depth int) bool {
+	if depth > 4 {
+		return false
+	}
+	switch x := v.(type) {
+	case *ssa.Const:
+		return x.Value != nil && x.Value.Kind() == constant.Bool && !constant.BoolVal(x.Value)
+	case *ssa.UnOp:
+		if x.Op != token.NOT {
+			return false
+		}
+		ld, ok := stripIdentity(x.X).(*ssa.UnOp)
+		if !ok || ld.Op != token.MUL {
+			return false
+		}
+		fa, ok := ld.X.(*ssa.FieldAddr)
+		if !ok {
+			return false
+		}
+		tn, fname, _, _ := fieldOf(fa)
+		return tn == "Field" && fname == "IsRepeat" && stripIdentity(fa.X) == param
+	case *ssa.Phi:
+		for _, e := range x.Edges {
+			if !valueImpliesNotRepeat(e, param, depth+1) {
+				return false
+			}
+		}
+		return true
+	}
+	return false
+}
+
+// sameCellValue: the two values are the same node: identical after stripping identities, or two loads of one variable that lives in
+// a cell (because a closure captures it) and is assigned exactly once.
+func sameCellValue(a, b ssa.Value) bool {
+	a, b = stripIdentity(a), stripIdentity(b)
+	if a == b {
+		return true
+	}
+	ca, cb := singleAssignCell(a), singleAssignCell(b)
+	return ca != nil && ca == cb
 }
